@@ -89,9 +89,13 @@ func (a *Alias) LLString() string {
 	}
 	buf.WriteString(" alias")
 	fmt.Fprintf(buf, " %s, ", a.Typ.ElemType)
-	if expr, ok := a.Aliasee.(constant.Expression); ok {
+	switch expr := a.Aliasee.(type) {
+	case *constant.ExprBitCast, *constant.ExprGetElementPtr, *constant.ExprAddrSpaceCast, *constant.ExprIntToPtr:
+		// The grammar of indirect symbols allows these four expressions
+		// without a leading type.
 		buf.WriteString(expr.Ident())
-	} else {
+	default:
+		// Type-value pair; e.g. `i32* @x` or `i32* select (i1 true, i32* @x, i32* @y)`.
 		buf.WriteString(a.Aliasee.String())
 	}
 	if len(a.Partition) > 0 {
